@@ -181,6 +181,7 @@ MUTANTS = {
         ('remove-drops-by-id-when-keeping', IS, "        if remove_data_only {\n", "        if remove_data_only {\n            if let Some(d) = data.as_ref() { self.by_id.remove(&d.id); }\n"),
     ],
     'C12': [
+        ('pt-writeback-by-config', P, "        let writeback = self.writeback.load(Ordering::Relaxed);", "        let writeback = self.cfg.writeback;"),
         ('overlay-open-writeback-by-config', 'src/overlayfs/sync_io.rs', """        flags |= libc::O_NOFOLLOW;
 
         if self.writeback.load(Ordering::Relaxed) {""", """        flags |= libc::O_NOFOLLOW;
